@@ -1421,8 +1421,13 @@ impl<'a, 'b, W: Write> Serializer for &'a mut YamlSerializer<'b, W> {
                 && !self.pending_space_after_colon;
             // If we are a mapping value (space after colon was pending), we will handle
             // the newline later in SeqSer::serialize_element to keep empty sequences inline.
+            let anchored = self.pending_anchor_id.is_some();
             self.write_anchor_for_complex_node()?;
-            if inline_first {
+            if inline_first && anchored {
+                // `- &aN` ended the dash line: the nested sequence starts on a line of its own,
+                // indented under the dash, instead of inlining its first dash.
+                self.pending_inline_map = false;
+            } else if inline_first {
                 // Keep staged inline (pending_inline_map) so the child can inline its first dash.
                 // Ensure we stay mid-line so the child can emit its first dash inline.
                 self.at_line_start = false;
